@@ -20,6 +20,7 @@ def run(chk):
              "Difference/Xor, on every reachable (fill, clip, wind_cnt, wind_cnt2) cell")
     chk.rule("T.open-toggle", "an open edge crossing a closed edge toggles its contribution iff the closed edge bounds the region the open "
              "path is cut against (non-Union: clip edge on the clip-filled boundary; Union: edge of the closed solution)")
+    chk.rule("HORZ.open-end", "DoHorizontal keeps its end-of-segment tests active unless the edge is a closed-path maximum (an open end has no maxima pair)")
     chk.rule("ADD.closing-vertex", "AddPaths_ drops a trailing vertex equal to the first one iff the path is closed")
     chk.rule("SIBLING.64-D", "BuildPath64 / BuildPathD treat open paths alike")
     for cfg in cfgs:
@@ -27,6 +28,7 @@ def run(chk):
         e3.table_open(db, chk, cfg)
         e3.table_open_toggle(db, chk, cfg)
         e3.closing_vertex_rule(db, chk, cfg)
+        e3.horz_open_end_rule(db, chk, cfg)
         try:
             from ..engines import e6_siblings as e6
         except ImportError:
